@@ -21,7 +21,7 @@ CHECKS = {
         level_note="trusts the reference formulas (DESIGN.md A.4) and that Writer offers partitions 0..n-1",
         rule=("cases = (balancer, key, partition count) triples, RoundRobin call sequences and LeastBytes size sequences; "
               "enumerated: nil, empty and every 1- and 2-byte key x partition counts (all 1..64 in thorough) x 6 hashing balancers; "
-              "generated: rapid keys of every length mod 4, high-bit bytes, up to 1 KiB, counts up to 100000. "
+              "generated: rapid keys of every length mod 4, high-bit bytes, up to 1 KiB, counts up to 100000; Hash / ReferenceHash with a user-supplied Hasher whose value is chosen directly (sign boundaries 0x7fffffff / 0x80000000 / 0xffffffff enumerated x every count up to 64, random values). "
               "Non-trivial = the reference client hashes the key deterministically (not a 'any partition' rule), or a "
               "RoundRobin/LeastBytes sequence with >1 partition and >1 call; distinct by (balancer,key,n) or by the case value."),
         assumptions=["reference FNV-1a/CRC-32/murmur2 and partitioner formulas are written from the Sarama, librdkafka and Java client definitions",
@@ -29,6 +29,7 @@ CHECKS = {
         units=[
             dict(run="TestSmallKeysExhaustive", checks=None, timeout=1200),
             dict(run="TestRandomKeys", checks_quick=20000, checks_thorough=400000, shards_thorough=4),
+            dict(run="TestCustomHasher", checks_quick=5000, checks_thorough=200000),
             dict(run="TestRoundRobin", checks_quick=3000, checks_thorough=60000, shards_thorough=2),
             dict(run="TestLeastBytes", checks_quick=3000, checks_thorough=60000, shards_thorough=2),
         ],
